@@ -13,7 +13,7 @@ mod sexp;
 mod swap;
 mod types;
 
-use gen::{coincidence_case, gen_val, sequences, BorrowHistory, GrowThen, LimitGen, NearLimit, RandGen};
+use gen::{coincidence_case, gen_val, sequences, BorrowHistory, GrowThen, LimitGen, NearLimit, RandGen, TbsScript};
 use hx_common::{Args, Recorder, Rng};
 use run::{parse_header, CaseOut, Cx, FixedOps, OpSource, Prop};
 use sexp::{parse_path, print_path, Shape, Step, Val};
@@ -39,6 +39,9 @@ impl Runner<'_> {
                     (e.run_swap_acct)(header, &hdr, src, &mut self.cx)
                 } else if hdr.swap {
                     (e.run_swap)(header, &hdr, src, &mut self.cx)
+                } else if hdr.tbs && self.cx.prop == Prop::C03 {
+                    self.cx.rec.bump("backing:test_underlying_data");
+                    (e.run_tbs)(header, &hdr, src, &mut self.cx)
                 } else if hdr.account {
                     // C03 first, now every property: `impl UnsizedTypeDataAccess for AccountInfo` under the wrappers
                     self.cx.rec.bump("backing:account");
@@ -504,6 +507,22 @@ fn gen_c03(runner: &mut Runner, rng: &mut Rng, args: &Args, extra: &mut BTreeMap
         }
     }
     extra.insert("account_pair_swap_cases".into(), serde_json::json!(npair));
+    // ---- the repository's own TestUnderlyingData (store of TestByteSet): limit scripts in one / two steps, within
+    //      one borrow and across borrows, shrink then regrow; every script ends with the refused growth
+    let mut ntbs = 0u64;
+    for round in 0..(if thorough { 4 } else { 1 }) {
+        for (i, (tid, path)) in LIMITS.iter().enumerate() {
+            let e = reg.iter().find(|e| e.id == *tid).unwrap();
+            for variant in 0..TbsScript::VARIANTS {
+                let v = if round == 0 && variant != 4 && variant != 7 { e.shape.default_val() } else { gen_val(&e.shape, rng, 0) };
+                let header = format!("case tbs-{variant}-{i}-{round}-{tid} {} {}", e.shape_s, v.print());
+                runner.cx.rec.bump("source:test_underlying_data");
+                runner.run(&header, &mut TbsScript { path: parse_path(path).unwrap(), variant, step: 0 });
+                ntbs += 1;
+            }
+        }
+    }
+    extra.insert("test_underlying_data_cases".into(), serde_json::json!(ntbs));
     // ---- growth to exactly orig+10240 and one past, both layouts (last: a broken build dies here on a guard
     //      page, which ends the run; the cheaper gates above should have spoken first)
     for (i, (tid, path)) in LIMITS.iter().enumerate() {
